@@ -156,7 +156,74 @@ def inherit_instance(tier, seed=0):
     return {"inits": inits, "ops": ops}
 
 
-INSTANCES = {"MxEval": eval_instance, "MxInherit": inherit_instance}
+def dyn_program(npar):
+    """The concrete program behind the abstract MxDyn instance: P (1 or 2 parameters) with
+    child C, a static S calling into instances, references at every level."""
+    flib = {
+        "PF1": {"ps": [["p", 0, 0]], "ops": [], "catch": False, "onerr": 0, "style": "pf"},
+        "PF2": {"ps": [["p", 0, 0], ["pp", 1, 1]], "ops": [], "catch": False, "onerr": 0, "style": "pf"},
+        "X1": F([], [["const", 100], ["read", ["p"]], ["read", ["r"]], ["read", ["g"]]]),
+        "X2": F([], [["const", 200], ["read", ["p"]], ["read", ["r"]], ["read", ["g"]]]),
+        "Z1": F([], [["const", 1000], ["read", ["s"]], ["read", ["p"]], ["call", ["_model", "P", "x"], [], "pos"]]),
+        "Z2": F([], [["const", 2000], ["read", ["s"]], ["read", ["p"]], ["read", ["g"]]]),
+        "W0": F([], [["const", 7], ["icall", ["_model", "P"], [["c", 0]], "x", [], "sub"]]),
+        "W1": F([], [["const", 7], ["icall", ["_model", "P"], [["c", 1]], "x", [], "call"]]),
+    }
+    sp = [["S"], ["P"], ["P", "C"]]
+    return {"flib": flib, "sigs": {"x": [], "z": [], "w0": [], "w1": []}, "sp": sp,
+            "bases": [[p, []] for p in sp],
+            "cells": [[["S"], {"w0": {"f": "W0", "cached": True, "an": 0},
+                               "w1": {"f": "W1", "cached": True, "an": 0}}],
+                      [["P"], {"x": {"f": "X1", "cached": True, "an": 0}}],
+                      [["P", "C"], {"z": {"f": "Z1", "cached": True, "an": 0}}]],
+            "refs": [[["S"], {}], [["P"], {"r": {"v": ["int", 1, [], ""], "mode": "auto"}}],
+                     [["P", "C"], {"s": {"v": ["int", 2, [], ""], "mode": "auto"}}]],
+            "grefs": {"g": {"v": ["int", 5, [], ""]}},
+            "pf": [[["P"], "PF%d" % npar]], "inp": [], "an": False, "span": [[p, 0] for p in sp]}
+
+
+def dyn_translate(inst, hist):
+    """Abstract MxDyn history -> (definitions, concrete operations)."""
+    npar = hist[0]["pf"]
+    defs = dyn_program(npar)
+    cur = {"x": "X1", "z": "Z1"}
+    vals = {"Prefs": 1, "Crefs": 2, "gref": 5}
+    ops = []
+    for h in hist[1:]:
+        k = h["op"]
+        if k in ("get_item", "del_item"):
+            ops.append(dict(h))
+        elif k == "call_dyn":
+            st = [["i", "", list(h["key"])]] + ([["c", "C", []]] if h["w"] == "C" else [])
+            ops.append({"op": "call", "c": [["P"], st, "z" if h["w"] == "C" else "x"], "args": [], "sp": "pos"})
+        elif k == "call_static":
+            ops.append({"op": "call", "c": [["S"], [], "w%d" % h["key"][0]], "args": [], "sp": "pos"})
+        elif k == "edit_cells":
+            c, s = ("x", ["P"]) if h["m"] == "Pcells" else ("z", ["P", "C"])
+            cur[c] = {"X1": "X2", "X2": "X1", "Z1": "Z2", "Z2": "Z1"}[cur[c]]
+            ops.append({"op": "set_formula", "s": s, "c": c, "f": cur[c], "via": "prop"})
+        elif k == "edit_ref":
+            vals[h["m"]] += 1
+            s, n = {"Prefs": (["P"], "r"), "Crefs": (["P", "C"], "s"), "gref": ([], "g")}[h["m"]]
+            ops.append({"op": "set_ref", "s": s, "n": n, "v": ["int", vals[h["m"]], [], ""], "mode": "auto",
+                        "via": "set_ref"})
+        elif k == "set_pf":
+            op = {"op": "set_pf", "s": ["P"]}
+            if h["n"]:
+                op["f"] = "PF%d" % h["n"]
+            ops.append(op)
+    # final sweep: every instance the history may have left + the static callers
+    for key in ([[0], [1]] if True else []):
+        pass
+    return defs, ops
+
+
+def dyn_instance(tier, seed=0):
+    return {"inits": [dyn_program(1)], "ops": []}
+
+
+INSTANCES = {"MxEval": eval_instance, "MxInherit": inherit_instance, "MxDyn": dyn_instance}
+TRANSLATE = {"MxDyn": dyn_translate}
 
 
 def write_instance(module, tier, path, seed=0):
